@@ -17,13 +17,19 @@ def _alarm(signum, frame):
 
 
 def with_timeout(fn, seconds):
-    old = signal.signal(signal.SIGALRM, _alarm)
-    signal.setitimer(signal.ITIMER_REAL, seconds)
+    """Run fn() under a budget of `seconds` of CPU time of this process (robust against a loaded machine); a wall-clock
+    timer of ten times that is the safety net for code that blocks without computing."""
+    old_r = signal.signal(signal.SIGALRM, _alarm)
+    old_v = signal.signal(signal.SIGVTALRM, _alarm)
+    signal.setitimer(signal.ITIMER_VIRTUAL, seconds)
+    signal.setitimer(signal.ITIMER_REAL, seconds * 10)
     try:
         return fn()
     finally:
+        signal.setitimer(signal.ITIMER_VIRTUAL, 0)
         signal.setitimer(signal.ITIMER_REAL, 0)
-        signal.signal(signal.SIGALRM, old)
+        signal.signal(signal.SIGALRM, old_r)
+        signal.signal(signal.SIGVTALRM, old_v)
 
 
 def real_input(word):
@@ -53,7 +59,8 @@ def build_corpus(rep, seed, n_grammars, max_units, bits_share=0.15, bytes_share=
             g = gen.rand_bits_grammar(rnd, 8)
         else:
             flavour = "bytes" if r < bits_share + bytes_share else "text"
-            g = gen.rand_grammar(rnd, flavour=flavour, regex_ok=regex_ok, computed=False, classes=gen.SMALL_CLASSES)
+            g = gen.rand_grammar(rnd, flavour=flavour, regex_ok=regex_ok, computed=False, classes=gen.SMALL_CLASSES,
+                                 assertions=(flavour == "text" and rnd.random() < 0.35))
         if gen.count_derivations(g, 8 if g["flavour"] == "bits" else max_units) > 2500:
             continue        # keeps the exhaustive enumeration of the corpus small (a corpus choice, not an oracle)
         grammars[gid] = g
@@ -74,6 +81,13 @@ def build_corpus(rep, seed, n_grammars, max_units, bits_share=0.15, bytes_share=
         seen.add(key)
         gid += 1
         grammars[gid] = g
+    # grammars whose regexes carry a leading zero-width assertion: the same grammar without the assertions is enumerated
+    # as well; its words that the real grammar does not have are exactly the inputs a context-sensitive scan would accept
+    stripped = {}
+    for k, g in list(grammars.items()):
+        if any(gen.is_assertion(it) for n in _regex_nodes(g) for it in n["items"]):
+            stripped[k] = 100000 + k
+            grammars[100000 + k] = _strip_assertions(g)
     text_like = {k: g for k, g in grammars.items() if g["flavour"] != "bits"}
     bits = {k: g for k, g in grammars.items() if g["flavour"] == "bits"}
     res = {}
@@ -83,6 +97,8 @@ def build_corpus(rep, seed, n_grammars, max_units, bits_share=0.15, bytes_share=
         res.update(enumerate_languages(rep, bits, 8, max_nodes=60, label="Lang-bits"))
     cases = []
     for k in sorted(grammars):
+        if k >= 100000:
+            continue
         g = grammars[k]
         e = res[k]
         bound = 8 if g["flavour"] == "bits" else max_units
@@ -90,10 +106,36 @@ def build_corpus(rep, seed, n_grammars, max_units, bits_share=0.15, bytes_share=
         outside = [] if e.truncated else near_misses(inside, bound, rnd, limit=120)
         if g["flavour"] == "bits":
             outside = [w for w in outside if len(w) == 8]
+        if k in stripped and not e.truncated:
+            extra_out = sorted(set(res[stripped[k]].words) - set(e.words), key=repr)
+            outside = extra_out[:80] + outside
         if len(inside) > 150:
             inside = rnd.sample(inside, 150)
         cases.append({"gid": k, "g": g, "spec": gen.render(g), "enum": e, "inside": inside, "outside": outside})
     return cases
+
+
+def _regex_nodes(g):
+    out = []
+
+    def walk(n):
+        if n["k"] == "re":
+            out.append(n)
+        for x in n["xs"]:
+            walk(x)
+    for r in g["rules"].values():
+        walk(r)
+    return out
+
+
+def _strip_assertions(g):
+    def rx(n):
+        m = dict(n)
+        m["xs"] = [rx(x) for x in n["xs"]]
+        if m["k"] == "re":
+            m["items"] = [it for it in n["items"] if not gen.is_assertion(it)]
+        return m
+    return dict(g, rules={s: rx(n) for s, n in g["rules"].items()})
 
 
 def _parse_case(args):
